@@ -403,7 +403,7 @@ func ParseSpecLines(sf *SpecFile, file string, lines []string, trusted bool) err
 	}
 	for _, l := range logical {
 		s := strings.TrimSpace(l.s)
-		if s == "" || strings.HasPrefix(s, "#") {
+		if s == "" || strings.HasPrefix(s, "#") || strings.HasPrefix(s, "//") {
 			continue
 		}
 		if i := strings.Index(s, " // "); i >= 0 {
